@@ -135,7 +135,7 @@ fn main() {
             0
         }
         Some("sweepinfo") => {
-            println!("sweep_total={} pair_total={}", modee::sweep_total(), modee::pair_total());
+            println!("sweep_total={} pair_total={} vac_total={}", modee::sweep_total(), modee::pair_total(), modee::vac_total());
             0
         }
         Some("replay") => runner::replay_main(Path::new(&a[2])),
